@@ -20,7 +20,7 @@ EXTRA = [("vtrans", "VAT", "VATSpec"), ("dtrans", "Dual", "DualSpec"), ("ttrans"
          ("itrans", "ICVI", "ICVISpec"), ("ptrans", "Prep", "PrepSpec"), ("rtrans", "Falcon", "FalconSpec"),
          ("atrans", "ARTMAP", "ARTMAPSpec"), ("htrans", "Deep", "DeepSpec"), ("btrans", "Bartmap", "BartmapSpec"),
          ("k2trans", "Kernels2", "Kernels2Spec"), ("qtrans", "Params", "ParamsSpec"), ("gtrans", "Gate", "GateSpec"),
-         ("wtrans", "Whole", "WholeSpec"), ("ftrans3", "FusionFit", "FusionFitSpec"), ("q2trans", "Params2", "Params2Spec"), ("xtrans", "Deleg", "DelegSpec"), ("p2trans", "Guards", "GuardsSpec"), ("gftrans", "FitGif", "FitGifSpec"), ("mtrans", "Misc", "MiscSpec")]
+         ("wtrans", "Whole", "WholeSpec"), ("ftrans3", "FusionFit", "FusionFitSpec"), ("q2trans", "Params2", "Params2Spec"), ("xtrans", "Deleg", "DelegSpec"), ("p2trans", "Guards", "GuardsSpec"), ("gftrans", "FitGif", "FitGifSpec"), ("mtrans", "Misc", "MiscSpec"), ("q3trans", "Params3", "Params3Spec")]
 
 
 def extra_translators():
@@ -99,7 +99,7 @@ def gen_prepare(ctx, theorems: list[str], covers: str):
                         "TopoStep": ["TopoStepSpec"], "ICVI": ["ICVISpec"], "Prep": ["PrepSpec"], "Falcon": ["FalconSpec"],
                         "ARTMAP": ["ARTMAPSpec"], "Deep": ["DeepSpec"], "Bartmap": ["BartmapSpec"], "FusionPredict": ["FusionPredictSpec"],
                         "Gate": ["GateSpec"], "Whole": ["WholeSpec"], "K2": ["Kernels2Spec"], "Params": ["ParamsSpec"],
-                        "FusionFit": ["FusionFitSpec"], "Params2": ["Params2Spec"], "Deleg": ["DelegSpec"], "Guards": ["GuardsSpec"], "FitGif": ["FitGifSpec"], "Misc": ["MiscSpec"]}
+                        "FusionFit": ["FusionFitSpec"], "Params2": ["Params2Spec"], "Deleg": ["DelegSpec"], "Guards": ["GuardsSpec"], "FitGif": ["FitGifSpec"], "Misc": ["MiscSpec"], "Params3": ["Params3Spec"]}
                 mods = set()
                 for t in theorems:
                     head = t.split(".")[0] if "." in t else None
